@@ -852,8 +852,10 @@ def enumerate_set(base, run, cap, aio_cap):
     calls = infos["render"]["calls"]
     for k in _strided(n_chunks + 1, cap):
         run(dict(base, fault={"kind": "close", "via": "generate", "k": k, "drv": "own"}))
-    run(dict(base, fault={"kind": "none", "via": "sync", "k": 0, "drv": "own"}))
-    for k in _strided(calls, max(4, cap // 3)):
+    # the synchronous entry point costs ~4 ms per case (asyncio.run): a few points per set only
+    if calls == 0:
+        run(dict(base, fault={"kind": "none", "via": "sync", "k": 0, "drv": "own"}))
+    for k in _strided(calls, max(3, cap // 20)):
         run(dict(base, fault={"kind": "raise", "via": "sync", "k": k + 1, "drv": "own"}))
     for via in ("render", "generate"):
         steps = infos[via]["steps"]
